@@ -204,12 +204,19 @@ class ImplLog(object):
         after = self.raw()
         self.handler = None
         grown = [fn for fn in before if after.get(fn) != before[fn]]
-        assert len(grown) <= 1, grown
         files = dict(before)
+        anomaly = None
+        if len(grown) > 1:
+            anomaly = 'one callback changed %d files that existed before it' % len(grown)
         for fn in grown:
-            assert after[fn].startswith(before[fn])
+            if fn not in after or not after[fn].startswith(before[fn]):
+                # not an append: the callback truncated / rewrote / removed a file holding reported records; nothing to tear
+                anomaly = 'a callback truncated, rewrote or removed a file that already held records (%s)' % fn
+                files = after
+                break
             files[fn] = after[fn][:len(before[fn]) + off]
         self.set_raw(files)
+        return anomaly
 
 
 def payload_of(cb, msg):
